@@ -41,6 +41,18 @@ impl Provenance {
         }
     }
 
+    /// Whether two values carrying this provenance are necessarily the same value. An `Unknown`
+    /// anywhere inside (a literal or computed tuple field, say) stands for any value at all, so
+    /// equal provenances then say nothing.
+    pub fn identifies_value(&self) -> bool {
+        match self {
+            Provenance::Unknown => false,
+            Provenance::Variable(_) | Provenance::Parameter => true,
+            Provenance::Field(parent, _) => parent.identifies_value(),
+            Provenance::Tuple(fields) => fields.iter().all(Provenance::identifies_value),
+        }
+    }
+
     /// The provenance to store with a variable. `Parameter` is relative to the scope it was
     /// observed in, but a variable outlives that scope's position: read again inside a nested
     /// block it would name that block's parameter instead. So it is not kept.
